@@ -136,8 +136,8 @@ const realBuildRepeats = 30
 func realFlowsRequests(ops []string, decls []flowDecl, o *proto.Out) []*config.HAProxyEndpointsRequest {
 	catchAll := false
 	for _, d := range decls {
-		if d.url == "*" || d.url == ".*" || d.url == "" {
-			catchAll = true
+		if d.url == "*" || d.url == ".*" || d.url == "" || d.expr {
+			catchAll = true // (catch-all or expression filter: always through the real Stream)
 		}
 	}
 	if len(decls) == 0 || !catchAll && (caseHash(ops)%engineCheckEvery != 0 || engineChecks >= engineCheckBudget) {
@@ -150,6 +150,9 @@ func realFlowsRequests(ops []string, decls []flowDecl, o *proto.Out) []*config.H
 		if len(d.methods) > 0 {
 			mb, _ := json.Marshal(d.methods)
 			ms = "  method: " + string(mb) + "\n"
+		}
+		if d.expr {
+			ms += "  expressions: [\"" + flowExpression + "\"]\n"
 		}
 		files["flows/"+d.name+".yaml"] = fmt.Sprintf(flowTmpl, d.name, string(ub), ms)
 	}
